@@ -230,6 +230,8 @@ pub fn units(prop: &str, tier: Tier) -> Option<Vec<Unit>> {
                 class("kext-contract-stream", &en::k_ext(), 3).kind(KindId::Stream).alarm(alarm).lazy().unit(),
                 class("kext-contract-boxed-stream-no-size-hint", &en::k_ext(), 3).kind(KindId::BoxedStream).alarm(alarm).lazy().unit(),
                 class("kext-contract-ioinput", &en::k_ext(), 3).kind(KindId::Io).alarm(alarm).lazy().unit(),
+                // ... nor on how the reader behind an IoInput answers: every schedule of short reads / Interrupted answers
+                class("k01-contract-ioinput-faulty-reader", &en::k01(), 3).len(pick(3, 4)).kind(KindId::IoFaulty).alarm(alarm).lazy().unit(),
                 e1("k02-contract", "repeated()/separated_by() templates".into(), {
                     let mut v = en::k02_rep(false);
                     v.extend(en::k02_sep(false));
@@ -350,6 +352,14 @@ pub fn units(prop: &str, tier: Tier) -> Option<Vec<Unit>> {
                 class("k07-slice", &en::k07(true), pick(3, 3)).kind(KindId::Slice).alarm(alarm).unit(),
                 class("k07-str-through-clone", &en::k07(true), 3).alarm(alarm).clone_mode().unit(),
                 class("k07-stream", &en::k07(false), pick(3, 3)).kind(KindId::Stream).alarm(alarm).unit(),
+                // to_slice / MapExtra::slice on every other input kind that can hand out slices: sub-slices of the caller's
+                // buffer (same memory), spans re-based as documented
+                class("k07-u8", &en::k07(true), 3).kind(KindId::U8).alarm(alarm).unit(),
+                class("k07-bytes", &en::k07(true), 3).kind(KindId::Bytes).alarm(alarm).unit(),
+                class("k07-with-context", &en::k07(true), 3).kind(KindId::WithContext).alarm(alarm).unit(),
+                class("k07-with-context-multibyte", &en::k07(true), 3).kind(KindId::WithContextMb).alarm(alarm).unit(),
+                class("k07-map-span", &en::k07(true), 3).kind(KindId::MapSpan).alarm(alarm).unit(),
+                class("k07-&[char; 3]", &en::k07(true), 3).kind(KindId::Array3).inputs(en::inputs(&ABC, 3).into_iter().filter(|t| t.len() == 3).collect()).alarm(alarm).unit(),
                 class("k07-mapped-gapped", &en::k07(false), pick(3, 4)).kind(KindId::MappedGapped).alarm(alarm).unit(),
                 // tokens read by reference (any_ref / select_ref): the cursor of a mapped input records the end of
                 // the last token separately for the by-value and the by-reference readers
@@ -411,6 +421,10 @@ pub fn units(prop: &str, tier: Tier) -> Option<Vec<Unit>> {
                 v.push(class(&format!("k01-{}", kind.name()), &k, pick(3, 3)).kind(kind).alarm(alarm).unit());
                 v.push(class(&format!("kext-{}", kind.name()), &ke, pick(3, 3)).kind(kind).alarm(alarm).unit());
             }
+            // IoInput over a reader that deviates from the default answer (1-byte short reads, Interrupted at the k-th
+            // read call, both): 15 schedules x every case; the result must not depend on the schedule
+            v.push(class("k01-ioinput-faulty-reader", &k, pick(3, 4)).kind(KindId::IoFaulty).alarm(alarm).unit());
+            v.push(class("kext-ioinput-faulty-reader", &ke, 3).len(pick(3, 4)).kind(KindId::IoFaulty).alarm(alarm).unit());
             for kind in [KindId::Stream, KindId::Mapped, KindId::Io, KindId::WithContext] {
                 v.push(class(&format!("k01-{}-through-clone", kind.name()), &k, 3).kind(kind).alarm(alarm).clone_mode().unit());
             }
